@@ -230,6 +230,9 @@ func resultKind(s string) string {
 }
 
 func (rn *Runner) Finish(out string) {
+	for k, n := range routeCounts {
+		rn.St.Dist["alternate-route:"+k] += n
+	}
 	rn.Flush()
 	profReport()
 	keys := make([]string, 0, len(rn.St.Dist))
